@@ -5,7 +5,7 @@ CONSTANTS
   Types = {"C", "U", "R", "D"}
   KeyTypes = {0, 1, 2, 3, 4}
   Hashes = {18, 19}
-  Windows = {"none", "from", "fromUntil"}
+  Windows = {"none", "from", "fromUntil", "untilExact", "fromExact", "fromOnlyEdge"}
   PatchClasses = {"one", "two", "opaque"}
   Origins = {"none", "string", "object"}
   Nonces = {"absent", "N"}
